@@ -1,5 +1,6 @@
 import DoltVerif.Model.VcsOpsStep
 import DoltVerif.Lemmas.VcsOpsPatch
+import DoltVerif.Lemmas.VcsOpsStash
 /-!
 C34 — Stash, reset and checkout restore exactly what they promise.
 
@@ -199,6 +200,131 @@ theorem checkout_carry_full_false : ¬ checkout_carry_full := by
   decide
 
 /-! ### stash -/
+
+/-- **stash_pop (working contents).**  `dolt_stash('push')` immediately followed by
+`dolt_stash('pop')` succeeds and restores the working root exactly — modified, dropped and staged-new
+tables as well as untracked ones — puts the stash list back, and leaves HEAD alone; the staged root
+becomes HEAD plus the tables that were staged as new (`TablesToStage`).  Proviso (`hnew`): no table is
+absent from the staged root while present in both HEAD and the working root (a table dropped, staged
+and re-created — the model, following the code, loses the re-created table there). -/
+theorem stash_pop_working (d d1 : Db) (hd : d.WF) (hw : RootWF d.ws.working) (hs : RootWF d.ws.staged)
+    (hnew : ∀ n, get d.ws.staged n = none → get d.ws.working n ≠ none → get d.headRoot n = none)
+    (hpush : d.stashPush = (.ok, d1)) :
+    ∃ d2, d1.stashPop = (.ok, d2) ∧ d2.ws.working = d.ws.working ∧ d2.stashes = d.stashes ∧
+      d2.headId = d.headId ∧
+      d2.ws.staged = moveTables ((changedTables d.headRoot
+          (moveTables (trackedChanged d.ws) d.ws.working d.ws.staged)).filter (fun n => !(has d.headRoot n)))
+        d.ws.working d.headRoot := by
+  unfold Db.stashPush at hpush
+  dsimp only at hpush
+  split at hpush
+  · cases hpush
+  · split at hpush
+    · cases hpush
+    · simp only [Prod.mk.injEq, true_and] at hpush
+      subst hpush
+      -- names
+      have hH : RootWF d.headRoot := rootWF_rootOf d hd d.headId
+      let W := d.ws.working
+      let S := d.ws.staged
+      let H := d.headRoot
+      let S1 := moveTables (trackedChanged d.ws) W S
+      let all := changedTables H S1
+      let W1 := moveTables all H W
+      have gS1 : ∀ n, get S1 n = if n ∈ trackedChanged d.ws then get W n else get S n :=
+        fun n => (get_moveTables (trackedChanged d.ws) W S hs.1 n).1
+      have gW1 : ∀ n, get W1 n = if n ∈ all then get H n else get W n :=
+        fun n => (get_moveTables all H W hw.1 n).1
+      have sS1 : Sorted ltStr (keys S1) := (get_moveTables (trackedChanged d.ws) W S hs.1 "").2
+      have htracked : ∀ n, n ∈ trackedChanged d.ws ↔ (get S n ≠ get W n ∧ (get S n).isSome = true) := by
+        intro n
+        simp only [trackedChanged, List.mem_filter, mem_changedTables, has]
+        exact Iff.rfl
+      have hall : ∀ n, n ∈ all ↔ get H n ≠ get S1 n := fun n => mem_changedTables H S1 n
+      -- the stashed root equals the working root on every stashed table
+      have hS1W : ∀ n, n ∈ all → get S1 n = get W n := by
+        intro n hn
+        rw [gS1 n]
+        by_cases ht : n ∈ trackedChanged d.ws
+        · simp [ht]
+        · simp only [ht, if_false]
+          have hnt : ¬ (get S n ≠ get W n ∧ (get S n).isSome = true) := fun h' => ht ((htracked n).mpr h')
+          by_cases hsw : get S n = get W n
+          · exact hsw
+          · have hsn : get S n = none := by
+              cases hg : get S n with
+              | none => rfl
+              | some v => exact absurd ⟨hsw, by simp [hg]⟩ hnt
+            have hwn : get W n ≠ none := fun e => hsw (by rw [hsn, e])
+            have hhn := hnew n hsn hwn
+            have := (hall n).mp hn
+            rw [gS1 n] at this
+            simp only [ht, if_false] at this
+            exact absurd (by rw [hhn, hsn]) this
+      -- table by table the pop's merge is decided at table level and gives back W
+      have hpt : ∀ n, mergeTable stashPopIsCherry (get H n) (get W1 n) (get S1 n) = .ok (get W n) := by
+        intro n
+        rw [gW1 n]
+        by_cases hn : n ∈ all
+        · simp only [hn, if_true]
+          rw [← hS1W n hn]
+          apply mergeTable_base_ours
+          · intro t ht
+            rw [hS1W n hn] at ht
+            exact hw.2 n t ht
+          · intro hc; cases hc
+        · simp only [hn, if_false]
+          have : get S1 n = get H n := by
+            apply Classical.byContradiction
+            intro hne
+            exact hn ((hall n).mpr (fun e => hne e.symm))
+          rw [this]
+          exact mergeTable_base_theirs _ _ _
+      have hsub : ∀ n ∈ keys W, n ∈ keys W1 ∨ n ∈ keys S1 := by
+        intro n hn
+        have hwn : get W n ≠ none := by
+          intro e
+          obtain ⟨v, hv⟩ : ∃ v, (n, v) ∈ W := by
+            simpa [keys] using hn
+          -- a key of a sorted list has a value
+          have := get_of_mem strictTotal_ltStr W hw.1 n v hv
+          rw [e] at this
+          cases this
+        by_cases ha : n ∈ all
+        · right
+          apply mem_keys_of_get_ne_none
+          rw [hS1W n ha]; exact hwn
+        · left
+          apply mem_keys_of_get_ne_none
+          rw [gW1 n]; simp only [ha, if_false]; exact hwn
+      have hmerge : merge3 stashPopIsCherry H W1 S1 = .ok W := merge3_pointwise _ H W1 S1 W hw.1 hsub hpt
+      have hnrm : needsRowMerge H W1 S1 = false := by
+        unfold needsRowMerge
+        rw [List.any_eq_false]
+        intro n _
+        by_cases hn : n ∈ all
+        · have : get W1 n = get H n := by rw [gW1 n]; simp [hn]
+          simp [this]
+        · have : get S1 n = get H n := by
+            apply Classical.byContradiction
+            intro hne
+            exact hn ((hall n).mpr (fun e => hne e.symm))
+          simp [this]
+      let added := all.filter (fun n => !(has H n))
+      let d1 : Db := { (d.setWs ⟨W1, H, none⟩) with stashes := ⟨S1, d.headId, added⟩ :: d.stashes }
+      have e2 : d1.ws = ⟨W1, H, none⟩ := ws_setWs d ⟨W1, H, none⟩
+      have e3 : d1.rootOf d.headId = H := rfl
+      have hpop : d1.stashPop =
+          (.ok, { (d1.setWs ⟨W, moveTables added W H, none⟩) with stashes := d.stashes }) := by
+        have e1 : d1.stashes = ⟨S1, d.headId, added⟩ :: d.stashes := rfl
+        simp only [Db.stashPop, e1, e2, e3, hnrm, Bool.false_eq_true, if_false, hmerge]
+      refine ⟨_, hpop, ?_, rfl, rfl, ?_⟩
+      · have := ws_setWs d1 ⟨W, moveTables added W H, none⟩
+        show (d1.setWs ⟨W, moveTables added W H, none⟩).ws.working = W
+        rw [this]
+      · have := ws_setWs d1 ⟨W, moveTables added W H, none⟩
+        show (d1.setWs ⟨W, moveTables added W H, none⟩).ws.staged = moveTables added W H
+        rw [this]
 
 /-- the property's wording: push then pop restores the working *and staged* contents exactly -/
 def stash_pop_full : Prop :=
